@@ -128,6 +128,51 @@ fn reference_estimates(solver: SolverKind, cp: &Compiled, t0: f64, y0: &[f64], d
     Some((worst, first))
 }
 
+/// Transliteration of the library's quasi-Newton solve of the implicit BDF equation (bdf.rs `secant`): start at the
+/// previous point, central finite-difference Jacobian with the increment dt, Broyden updates of the inverse, exit as
+/// soon as a shift is <= tol - whatever the residual. Used only to attribute the recorded finding K6.
+fn broyden_model(g: &dyn Fn(&[f64]) -> Vec<f64>, start: &[f64], dt: f64, tol: f64) -> Option<Vec<f64>> {
+    use nalgebra::{DMatrix, DVector};
+    let d = start.len();
+    let gv = |x: &DVector<f64>| DVector::from_vec(g(x.as_slice()));
+    let mut guess = DVector::from_column_slice(start);
+    let mut derivative = gv(&guess);
+    let mut jac = DMatrix::<f64>::zeros(d, d);
+    let denom = (2.0 * dt).recip();
+    for ind in 0..d {
+        guess[ind] += dt;
+        let above = gv(&guess);
+        guess[ind] -= 2.0 * dt;
+        let below = gv(&guess);
+        guess[ind] += dt;
+        jac.set_column(ind, &((above - below) * denom));
+    }
+    let mut jac_inv = jac.clone().lu().try_inverse().or_else(|| jac.clone().full_piv_lu().try_inverse()).or_else(|| jac.qr().try_inverse())?;
+    let mut shift = -&jac_inv * &derivative;
+    guess += &shift;
+    if shift.norm() <= tol {
+        return Some(guess.iter().cloned().collect());
+    }
+    let mut n = 2;
+    while n < 1000 {
+        let derivative_last = derivative;
+        derivative = gv(&guess);
+        let difference = &derivative - &derivative_last;
+        let adjustment = -&jac_inv * difference;
+        let s_transpose = shift.adjoint();
+        let p = (-&s_transpose * &adjustment)[(0, 0)];
+        let u = s_transpose * &jac_inv;
+        jac_inv += (shift + adjustment) * u / p;
+        shift = -&jac_inv * &derivative;
+        guess += &shift;
+        if shift.norm() <= tol {
+            return Some(guess.iter().cloned().collect());
+        }
+        n += 1;
+    }
+    None
+}
+
 pub fn run_case(case: &Case) -> Outcome {
     let mut o = Obs::new();
     let Some(cp) = case.problem.compile() else { return o.discard("degenerate problem") };
@@ -177,6 +222,18 @@ pub fn run_case(case: &Case) -> Outcome {
         path.push((cfg.t0, case.y0.clone()));
     }
     path.extend(run.pts.iter().cloned());
+    if matches!(case.problem, Problem::Quasi { .. }) {
+        // y' = -lam (y^2 - c^2) blows up in finite time once an unstable numerical trajectory has been thrown below
+        // -|c|: on this class the path is judged up to the first point beyond 1e6 or non-finite (method formulas on
+        // overflowing values carry no information); the bounded generic family keeps the strict rule
+        if let Some(k) = path.iter().position(|(t, y)| !t.is_finite() || !y.iter().all(|v| v.is_finite() && v.abs() <= 1e6)) {
+            o.label("quasi-steady-blow-up");
+            path.truncate(k);
+            if path.len() < 2 {
+                return o.discard("blow-up at the first point");
+            }
+        }
+    }
     if path.iter().any(|(t, y)| !t.is_finite() || !y.iter().all(|v| v.is_finite())) {
         return o.fail("non-finite point");
     }
@@ -185,6 +242,7 @@ pub fn run_case(case: &Case) -> Outcome {
     let mut preds: Vec<Vec<Vec<f64>>> = vec![vec![]; path.len()];
     let mut worst_match: f64 = 0.0;
     let mut worst_est: f64 = 0.0;
+    let mut worst_bdf: f64 = 0.0;
     let (mut n_rk4, mut n_multi) = (0usize, 0usize);
     for i in 1..path.len() {
         let (tp, yp) = (&path[i - 1].0, &path[i - 1].1);
@@ -365,14 +423,52 @@ pub fn run_case(case: &Case) -> Outcome {
                                 }
                             }
                             let r = norm2(&res);
-                            let allow = 4.0 * tol + 256.0 * EPS * (1.0 + ynorm) * 8.0;
+                            // "to within the solver tolerance": the quasi-Newton iteration stops on a shift <= tol and the shift after
+                            // that one is far smaller; largest residual observed on the repaired tree 0.065 tol
+                            let allow = tol + 256.0 * EPS * (1.0 + ynorm) * 8.0;
                             if r <= allow {
                                 kinds[i] = Some(Kind::Bdf);
                                 n_multi += 1;
                                 worst_est = worst_est.max(r / allow);
+                                worst_bdf = worst_bdf.max(r / tol);
                                 continue;
                             }
                             reason = format!("{reason}; BDF{order} residual at the new time {r:e} > {allow:e}");
+                            // K6: the library's quasi-Newton solve stops on a small shift whatever the residual. If the
+                            // transliterated iteration, started like the library's at the previous point, stops at this
+                            // very point, the failure is that recorded finding; anything else is a violation.
+                            // same operations in the same order as the library's closure: (-f dt c0 + sum prev c_j) + y
+                            let (pathr, ar, fr) = (&path, &a, &f);
+                            let gfun = |dt: f64| {
+                                let (path, a, f) = (pathr, ar, fr);
+                                move |y: &[f64]| -> Vec<f64> {
+                                    let fy = f(path[i - 1].0 + dt, y);
+                                    let mut out: Vec<f64> = (0..y.len()).map(|q| -fy[q] * dt * beta).collect();
+                                    for (j, aj) in a.iter().enumerate() {
+                                        for q in 0..out.len() {
+                                            out[q] += path[i - 1 - j].1[q] * -aj;
+                                        }
+                                    }
+                                    (0..y.len()).map(|q| out[q] + y[q]).collect()
+                                }
+                            };
+                            // the library's own step length: the observed gap, or the configured maximum step when they
+                            // agree to rounding
+                            let mut dts = vec![h];
+                            if (h - dt_max).abs() <= 1e-12 * dt_max && h != dt_max {
+                                dts.push(dt_max);
+                            }
+                            for dt in dts {
+                                let g = gfun(dt);
+                                if let Some(ym) = broyden_model(&g, &path[i - 1].1, dt, tol) {
+                                    if dist2(&ym, yn) <= 1e-12 * (1.0 + ynorm) {
+                                        return o.fail_sig(
+                                            format!("{} point #{i} at t = {tn:e} (h = {h:e}) does not satisfy the BDF formula at the new time: {reason}; the library's quasi-Newton iteration stops there on a small shift", solver.name()),
+                                            "bdf:quasi-newton-exit-on-small-shift:residual-above-tolerance",
+                                        );
+                                    }
+                                }
+                            }
                         } else {
                             reason = format!("{reason}; preceding {order} points are not equally spaced");
                         }
@@ -386,6 +482,9 @@ pub fn run_case(case: &Case) -> Outcome {
     }
     o.set(&format!("ratio_match_{}", solver.name()), worst_match);
     o.set("ratio_estimate", worst_est);
+    if worst_bdf > 0.0 {
+        o.set(&format!("ratio_bdf_residual_over_tol_{}", solver.name()), worst_bdf);
+    }
     o.set("rk4_points", n_rk4);
     o.set("multistep_points", n_multi);
     if n_rk4 > 0 {
@@ -444,7 +543,9 @@ pub fn run_case(case: &Case) -> Outcome {
 fn strategy(_t: Tier) -> BoxedStrategy<Case> {
     (
         proptest::sample::select(&ALL_SOLVERS[..]),
-        problem_generic(),
+        // one case in ten: a quasi-steady relaxation onto a slowly moving branch, strongly curved in y, in units of the
+        // step and the tolerance (scaled below): the implicit solvers' inner iteration starts almost converged
+        prop_oneof![9 => problem_generic(), 1 => problem_quasi_units()],
         prop_oneof![1 => Just(0.0), 3 => gen::fl(-2.0, 2.0)],
         gen::logu(-2.5, -0.52),
         gen::fl(0.5, 6.0),
@@ -456,6 +557,37 @@ fn strategy(_t: Tier) -> BoxedStrategy<Case> {
         // addition is exact, so boundary tests such as `time + dt >= end` meet exact equality
         prop_oneof![9 => Just(None), 1 => (-8i32..=8, 2u32..=7, 1u32..=48).prop_map(Some)],
     )
+        .prop_map(|(solver, (problem, y0), t0, dt_max, min_exp, fixed, k, tol, recentre, dyadic)| {
+            let (dt, t_first) = match dyadic {
+                None => (dt_max, t0),
+                Some((q, j, _)) => (0.5f64.powi(j as i32), q as f64 * 0.25),
+            };
+            // the quasi-steady class is for the implicit solvers (an explicit method is unstable on it by design)
+            let solver = match (&problem, solver) {
+                (Problem::Quasi { .. }, SolverKind::BDF6 | SolverKind::BDF2) => solver,
+                (Problem::Quasi { .. }, SolverKind::RK45 | SolverKind::Adams5 | SolverKind::Euler) => SolverKind::BDF6,
+                (Problem::Quasi { .. }, _) => SolverKind::BDF2,
+                _ => solver,
+            };
+            let (problem, y0, recentre) = match problem {
+                Problem::Quasi { lam, c0, a } => {
+                    let lam: Vec<f64> = lam.iter().map(|u| u / (dt * dt)).collect();
+                    let c0: Vec<f64> = c0.iter().zip(lam.iter()).map(|(u, l)| u / (l * dt)).collect();
+                    // the branch moves by 0.2-4 tolerances per step, but by no more than half its value over the run
+                    let steps = match dyadic {
+                        None => k,
+                        Some((_, _, n)) => n as f64,
+                    };
+                    let a: Vec<f64> = a.iter().zip(c0.iter()).map(|(u, c)| u.signum() * (u.abs() * tol / dt).min(0.5 * c / (steps.max(1.0) * dt))).collect();
+                    // the branch value at the start is c0 (the intercept is shifted accordingly)
+                    let c0: Vec<f64> = c0.iter().zip(a.iter()).map(|(c, a)| c - a * t_first).collect();
+                    let y0: Vec<f64> = c0.iter().zip(a.iter()).map(|(c, a)| c + a * t_first).collect();
+                    (Problem::Quasi { lam, c0, a }, y0, None)
+                }
+                other => (other, y0, recentre),
+            };
+            (solver, (problem, y0), t0, dt_max, min_exp, fixed, k, tol, recentre, dyadic)
+        })
         .prop_map(|(solver, (problem, y0), t0, dt_max, min_exp, fixed, k, tol, recentre, dyadic)| match dyadic {
             None => Case { solver, problem, y0, t0, dt_max, min_exp, fixed, k, tol, recentre },
             Some((q, j, n)) => Case { solver, problem, y0, t0: q as f64 * 0.25, dt_max: 0.5f64.powi(j as i32), min_exp, fixed: true, k: n as f64, tol, recentre: None },
@@ -475,7 +607,7 @@ pub fn run(opts: &Opts) -> i32 {
     spec.cases = opts.tier.pick(30_000, 800_000);
     spec.essential = vec![("has-startup", 0.2), ("has-multistep", 0.2), ("must-accept", 0.02), ("must-reject", 0.01), ("fixed-step", 0.15), ("rk45", 0.08), ("rk23", 0.08), ("euler", 0.08)];
     spec.max_discard_frac = 0.1;
-    spec.rule = "generated: seven solvers x generic non-linear non-autonomous right-hand sides f_i = a sin(w t + y_{i+1}) - b y_i + g y_{i+1} cos(v t)/(1+y_i^2) with random coefficients (dimension 1-4) x t0 in [-2,2] x dt_max 10^[-2.5,-0.52] (one case in ten on a dyadic grid with a fixed step: start k/4, step 2^-j, whole number of steps) x dt_min = dt_max 10^-[0.5,6] (a quarter of the cases with dt_min = dt_max: fixed step) x tolerance 10^[-10,-2] (optionally recentred on, or placed far above, the reference estimate of the first trial step) x interval 0.3-60 first trial steps. Oracle: every yielded point is re-derived from the previous yielded points with harness-side reference formulas: Fehlberg 4(5) / Bogacki-Shampine 3(2) step with embedded estimate <= tol; classical RK4 step or AB-predict/AM-correct update (PEC or PECE derivative history, estimate 19/270 |c-p|/h <= tol) for Adams; RK4 step or residual of the BDF formula at the new time <= 4 tol for BDF; y + dt f for Euler; fixed-step configurations: all estimates <= tol/100 => Ok with all gaps equal to the step, first estimate > 2 tol => first step not accepted (RK). Non-trivial = paths containing both start-up and multistep points (multistep solvers), >= 3 points with unequal gaps or fixed step (RK), >= 3 points (Euler). Distinct = distinct case JSON.".into();
+    spec.rule = "generated: seven solvers x generic non-linear non-autonomous right-hand sides f_i = a sin(w t + y_{i+1}) - b y_i + g y_{i+1} cos(v t)/(1+y_i^2) with random coefficients (dimension 1-4; one case in ten instead a quasi-steady relaxation f_i = -lam (y_i^2 - (c0 + a t)^2) started on its branch, with lam dt^2 in [0.5,8], lam c0 dt in [0.2,1.3] and a branch motion of 0.2-4 tolerances per step (at most half the branch value over the run), BDF solvers only; a path of this class is judged up to the first point beyond 1e6 - the equation itself blows up once an unstable trajectory has left the branch: strongly curved in y, inner iterations that start almost converged) x t0 in [-2,2] x dt_max 10^[-2.5,-0.52] (one case in ten on a dyadic grid with a fixed step: start k/4, step 2^-j, whole number of steps) x dt_min = dt_max 10^-[0.5,6] (a quarter of the cases with dt_min = dt_max: fixed step) x tolerance 10^[-10,-2] (optionally recentred on, or placed far above, the reference estimate of the first trial step) x interval 0.3-60 first trial steps. Oracle: every yielded point is re-derived from the previous yielded points with harness-side reference formulas: Fehlberg 4(5) / Bogacki-Shampine 3(2) step with embedded estimate <= tol; classical RK4 step or AB-predict/AM-correct update (PEC or PECE derivative history, estimate 19/270 |c-p|/h <= tol) for Adams; RK4 step or residual of the BDF formula at the new time <= tol for BDF (a point with a larger residual at which the harness's transliteration of the library's quasi-Newton iteration - exit on a shift <= tol - also stops (to 1e-12 relative) is the recorded finding K6); y + dt f for Euler; fixed-step configurations: all estimates <= tol/100 => Ok with all gaps equal to the step, first estimate > 2 tol => first step not accepted (RK). Non-trivial = paths containing both start-up and multistep points (multistep solvers), >= 3 points with unequal gaps or fixed step (RK), >= 3 points (Euler). Distinct = distinct case JSON.".into();
     spec.max_shrink_iters = 500;
     run_spec(spec, opts)
 }
